@@ -315,7 +315,17 @@ SEL_RX = r"\.(transpose|asDiagonal|leftCols|rightCols)\(((?:[^()]|\([^()]*\))*)\
 SEL_NC = r"\.(?:transpose|asDiagonal|leftCols|rightCols)\((?:[^()]|\([^()]*\))*\)"
 
 
+def _strip_parens(t):
+    t = t.strip()
+    while t.startswith("(") and X.match_close(t, 0) == len(t) - 1:
+        t = t[1:-1].strip()
+    return t
+
+
 def _factor(txt, mats, vecs, opname, g):
+    txt = txt.strip()
+    if txt.startswith("(") and X.match_close(txt, 0) == len(txt) - 1:
+        return shape_of(txt[1:-1], mats, vecs, opname, g, as_factor=True)      # parenthesised sub-expression
     m = re.match(r"^([\w>-]+(?:\.\w+(?![\w(]))*)((?:%s)*)$" % SEL_NC, txt.strip())
     if not m:
         raise X.ExtractionBreak("shape rules: cannot parse factor %r" % txt)
@@ -349,8 +359,27 @@ def _factor(txt, mats, vecs, opname, g):
     return Shape(rows, cols, checks, tag)
 
 
-def shape_of(expr, mats, vecs, opname=None, g="g_i"):
-    terms = [t for t in re.split(r"\s[+-]\s", expr.strip())]
+def _split_terms(expr):
+    """Split at top-level ` + ` / ` - ` (outside parentheses)."""
+    out, depth, cur, i = [], 0, [], 0
+    while i < len(expr):
+        ch = expr[i]
+        if ch in "([":
+            depth += 1
+        elif ch in ")]":
+            depth -= 1
+        if depth == 0 and ch in "+-" and i > 0 and expr[i - 1] == " " and i + 1 < len(expr) and expr[i + 1] == " ":
+            out.append("".join(cur))
+            cur = []
+        else:
+            cur.append(ch)
+        i += 1
+    out.append("".join(cur))
+    return out
+
+
+def shape_of(expr, mats, vecs, opname=None, g="g_i", as_factor=False):
+    terms = _split_terms(expr.strip())
     out = None
     for t in terms:
         fs = [_factor(f, mats, vecs, opname, g) for f in X.split_top(t, "*")]
@@ -369,6 +398,8 @@ def shape_of(expr, mats, vecs, opname=None, g="g_i"):
             out = Shape(out.rows, out.cols, out.checks + cur.checks +
                         ["__CPROVER_assert(%s == %s && %s == %s, @Q@Eigen: sum/difference needs equal shapes@Q@);" % (out.rows, cur.rows, out.cols, cur.cols)],
                         out.tag + cur.tag, out.opapply or cur.opapply)
+    if as_factor:
+        out.tag = None if (out.tag is None or any(t is None for t in out.tag) or len(out.tag) != 1) else out.tag[0]
     return out
 
 
@@ -402,11 +433,11 @@ static void OP_APPLY_BLOCK(Op *op, Index xrows, Index yrows, Index k)
 def assign_rule(mats, vecs, opname=None):
     """`lhs[.rightCols(e)][.noalias()] = <expr>;` with a Mat lvalue on the left -> checks + fresh result of the expression's shape."""
     alt = "|".join(sorted((re.escape(m) for m in mats), key=len, reverse=True))
-    pat = r"(?<![\w.>])((?:\w+->)?(?:%s))((?:\.rightCols\((?:[^()]|\([^()]*\))*\))?)(?:\.noalias\(\))?\s*=\s*([^;=]+);" % alt
+    pat = r"(?<![\w.>])((?:\w+->)?(?:%s))((?:\.(?:rightCols|leftCols)\((?:[^()]|\([^()]*\))*\))?)(?:\.noalias\(\))?\s*[-+]?=\s*([^;=]+);" % alt
 
     def rep(m):
         lhs, sel, rhs = m.group(1), m.group(2), " ".join(m.group(3).split())
-        if re.match(r"^MAT_(NEW|RESULT)\(", rhs):
+        if re.match(r"^MAT_(NEW|RESULT|RIGHTCOLS)\(", rhs):
             return m.group(0)
         mm = re.match(r"^Matrix\((.*)\)$", rhs)
         if mm:
@@ -417,8 +448,8 @@ def assign_rule(mats, vecs, opname=None):
         si, sj = shape_of(rhs, mats, vecs, opname, "g_i"), shape_of(rhs, mats, vecs, opname, "g_j")
         pre = " ".join(si.checks)
         if sel:
-            a = sel[len(".rightCols("):-1]
-            pre += (" __CPROVER_assert(0 <= (%s) && (%s) <= %s.cols, @Q@Eigen block assertion: rightCols(n) within the matrix@Q@);" % (a, a, lhs) +
+            a = sel[sel.index("(") + 1:-1]
+            pre += (" __CPROVER_assert(0 <= (%s) && (%s) <= %s.cols, @Q@Eigen block assertion: leftCols/rightCols(n) within the matrix@Q@);" % (a, a, lhs) +
                     " __CPROVER_assert(%s.rows == %s && (%s) == %s, @Q@Eigen: assignment to a block needs equal shapes@Q@);" % (lhs, si.rows, a, si.cols))
             if si.opapply:
                 return pre + " OP_APPLY_BLOCK(%s, %s, %s.rows, %s); MAT_TOUCH(%s);" % (opname, si.rows, lhs, a, lhs)
@@ -963,6 +994,53 @@ def f_accessors(report):
     return c
 
 
+# --------------------------------------------------------------------------- LinAlg/Orthogonalization.h (twice_is_enough / JensWehner / subspace / QR)
+
+ORTHO_DEFS = r"""
+static Mat MAT_RIGHTCOLS(Mat M, Index c)
+{ __CPROVER_assert(0 <= c && c <= M.cols, "Eigen block assertion: rightCols(n) within the matrix"); Mat V = M; V.cols = c; return V; }
+"""
+
+
+def f_orthogonalisation(report):
+    """The routines extend_basis relies on, as real callees of each other: every block selector and product inside them is within the matrix for EVERY shape
+    (more columns than rows included) once the routine's own asserted precondition 0 <= left_cols_to_skip < cols holds.  Matrices are passed by value in the
+    data-less model (contents are not modelled, the routines never resize - checked)."""
+    OH = "LinAlg/Orthogonalization.h"
+    out = []
+    mats = ["in_output", "right_cols", "I"]
+    common = DIM_RULES + [
+        ("assert", r"\bassert\(((?:[^()]|\([^()]*\))*?) && \"[^\"]*\"\);", r"__CPROVER_assert(\1, @Q@precondition asserted by the orthogonalisation routine@Q@);", {"min": 0}),
+        ("ref-view", r"Eigen::Ref<Matrix> (\w+) = (\w+)\.rightCols\(([^;]+)\);", r"Mat \1 = MAT_RIGHTCOLS(\2, \3);", {"min": 0}),
+        ("ident", r"InternalMatrix (\w+) = InternalMatrix::Identity\(([^;]+)\);", r"Mat \1 = MAT_NEW(\2);", {"min": 0}),
+        ("qr", r"Eigen::HouseholderQR<Matrix> (\w+)\((\w+)\);", r"const Index \1_rows = \2.rows;", {"min": 0}),
+        ("qr-apply", r"(\w+)\.leftCols\((\w+)\)\.noalias\(\) = (\w+)\.householderQ\(\) \* (\w+);",
+         r"NCOLS_CHECK(\1, \2); __CPROVER_assert(\3_rows == \4.rows && \4.cols == (\2) && \1.rows == \3_rows, @Q@Eigen: Q * I conforms with the block it is assigned to@Q@); MAT_TOUCH(\1);", {"min": 0}),
+        ("normalize", r"(\w+)\.col\(([^;()]+)\)\.normalize\(\);", r"COL_CHECK(\1, \2); MAT_TOUCH(\1);", {"min": 0}),
+        assign_rule(mats, {})]
+    common[-1] = common[-1][:3] + ({"min": 0},)
+    for nm in ("assert_left_cols_to_skip", "QR_orthogonalisation", "subspace_orthogonalisation", "JensWehner_orthogonalisation", "twice_is_enough_orthogonalisation"):
+        f = X.locate(OH, nm)
+        if re.search(r"\bresize|conservativeResize", f.body):
+            raise X.ExtractionBreak("%s resizes its argument: the by-value shape model does not apply" % nm)
+        ptypes = {"in_output": "Mat", "left_cols_to_skip": "Index"}
+        t, R = cgen.emit(f, nm, ret_c="void", param_types=ptypes, extra_rules=[("eigen-index", r"\bEigen::Index\b", "Index", {"min": 0})] + common,
+                         static=(nm != "twice_is_enough_orthogonalisation"))
+        report["Orthogonalization.h:" + nm] = R.fired
+        out.append(t)
+    h = r"""
+#line 1 "harness/orthogonalisation"
+void h(void) {
+  Mat M = MAT_NEW(ND_SIZE(), ND_SIZE()); Index left_cols_to_skip = nondet_Index();
+  __CPROVER_assume(0 <= left_cols_to_skip && left_cols_to_skip < M.cols);      /* the precondition the routine asserts, proved at its call site in extend_basis */
+  g_i = nondet_Index(); g_j = nondet_Index();
+  twice_is_enough_orthogonalisation(M, left_cols_to_skip);
+  CANARY();
+}
+"""
+    return ORTHO_DEFS + "".join(out) + h
+
+
 def base_text():
     return TYPES.replace('#include "skel.h"', '#include "skel.h"\n' + eigabs.SKEL_MACROS) + \
         common.enum_defines("Util/SelectionRule.h", "SortRule") + common.enum_defines("Util/CompInfo.h", "CompInfo")
@@ -1026,12 +1104,17 @@ def build(tier):
     groups.append(Group("jd.accessors", sbase + f_accessors(report), "h", loop_contracts=False, solver="cadical", defines=["SCALAR_DOUBLE"], functions=[JD + ":eigenvalues", JD + ":eigenvectors"],
                         expect_classes=["Eigen block assertion"], note="head(nev) / leftCols(nev) against the exit state of compute()"))
 
+    groups.append(Group("jd.orthogonalisation", sbase + f_orthogonalisation(report), "h", loop_contracts=False, solver="cadical", defines=["SCALAR_DOUBLE"],
+                        functions=["LinAlg/Orthogonalization.h:" + n_ for n_ in ("twice_is_enough_orthogonalisation", "JensWehner_orthogonalisation", "subspace_orthogonalisation", "QR_orthogonalisation", "assert_left_cols_to_skip")],
+                        expect_classes=["Eigen block assertion", "product dimensions agree", "precondition asserted"],
+                        note="the orthogonalisation routines behind extend_basis, for every shape: block selectors and products inside the matrix (Householder QR assumed: Q is rows x rows)"))
+
     meta = {"level": "proof", "trusted_base": ["cbmc 6.11.0 dfcc", "cadical", "extractor"],
             "assumptions": ["Eigen expression values are not modelled: column norms, the small eigenproblem and all products are nondeterministic; shapes, index expressions and per-column provenance tags are kept",
                             "argsort satisfies the contract proved in C18; std::sort assumed",
                             "Eigen::SelfAdjointEigenSolver (assumed, external): needs a square matrix, returns n eigenvalues and an n x n eigenvector matrix whose column j belongs to value j, info() in {Success, NumericalIssue, NoConvergence}; "
                             "the small eigenproblem of the FIRST iteration of a call succeeds (finite initial space, finite operator) - failures are modelled from the second iteration on",
-                            "twice_is_enough_orthogonalisation (LinAlg/Orthogonalization.h, assumed): shape-preserving; its asserted precondition 0 <= left_cols_to_skip < cols is checked at the call site",
+                            "twice_is_enough_orthogonalisation (LinAlg/Orthogonalization.h): shape-preserving (the routines never resize - checked on the text); its asserted precondition 0 <= left_cols_to_skip < cols is proved at the call site and its internal block selectors / products are proved in jd.orthogonalisation; Eigen::HouseholderQR assumed (Q is rows x rows)",
                             "the counting lemma `all of the first n flags set <=> head(n).sum() == n` and the definitional facts of a count are mathematics (HEAD_COUNT)",
                             "capacity mode of compute_with_guess / compute: arrays pre-allocated with an arbitrary capacity g_cap <= NMAX, every Eigen size that occurs is assumed <= g_cap (the instance g_cap = NMAX covers every run below the machine-integer cap)",
                             "setters (set_max_search_space_size, set_correction_size, set_initial_search_space_size) can break the size invariant; they are outside the claim (the caller's responsibility)",
